@@ -1409,6 +1409,7 @@ class DiagonalSubjac(SparseSubjac):
             if nzs.size > 0:
                 if 'uncovered_nz' not in self.info:
                     self.info['uncovered_nz'] = []
+                    self.info['uncovered_threshold'] = uncovered_threshold
                 self.info['uncovered_nz'].extend(list(zip(nzs, icol * np.ones_like(nzs))))
             column[icol] = save
 
